@@ -22,6 +22,11 @@ func vfBytes(d *etree.Document) []byte {
 
 // vfTry returns "" when diff+apply reproduces b (or MPDDiff refuses), else a description.
 func vfTry(a, b []byte) (failure string, refused bool) {
+	defer func() {
+		if rec := recover(); rec != nil {
+			failure, refused = fmt.Sprintf("mpddiff panic: %v", rec), false
+		}
+	}()
 	doc, _, err := MPDDiff(a, b)
 	if err != nil {
 		return "", true
@@ -103,10 +108,14 @@ func TestVerifC11P(t *testing.T) {
 			sig = "attribute-operation-on-wrong-node"
 		} else if strings.HasPrefix(fail, "patched document differs") {
 			sig = "patched-tree-differs"
+		} else if strings.HasPrefix(fail, "mpddiff panic") {
+			sig = "crash"
 		}
 		_ = script
 		what := "patched-document-differs"
-		if strings.HasPrefix(fail, "patch does not apply") {
+		if strings.HasPrefix(fail, "mpddiff panic") {
+			what = "panic"
+		} else if strings.HasPrefix(fail, "patch does not apply") {
 			what = "patch-does-not-apply"
 		}
 		r.Violation("mpddiff:"+what+":"+sig, map[string]any{"edits": kinds, "failure": fail[:min(len(fail), 900)], "old": string(a[:min(len(a), 1500)]), "new": string(b[:min(len(b), 1500)])})
